@@ -63,7 +63,12 @@ def evaluate(parser, T, A, mother, cap=None):
     if cap is not None and n > cap:
         return True, "paths", "", "skipped"
     want = cs.paths(T, A, mother)
+    others = [m for m in T if m != mother]
     try:
+        if others and (len(mother) + len(others)) % 2 == 0:
+            # history first (for half of the cases): the chain of this mother is asked for once with every other table cut
+            # off (stable set) BEFORE the expansion — a pure query must not influence the expansion that follows
+            parser.build_decay_chains(mother, stable_particles=others)
         got = parser.expand_decay_modes(mother)
     except Exception as ex:
         return False, "paths", f"expected {n} descriptors, raised {ex!r}", ""
@@ -75,7 +80,6 @@ def evaluate(parser, T, A, mother, cap=None):
     if got == want or cs.same_paths_as_multiset(got, want):
         # the answer must not depend on what the instance was asked before: cut the chain at every other table
         # (stable set) once, then ask again
-        others = [m for m in T if m != mother]
         if others:
             try:
                 parser.build_decay_chains(mother, stable_particles=others)
